@@ -17,7 +17,7 @@ ML = "cobra/flux_analysis/loopless.py"
 REG.fields.update({"is_boundary": "bool"})
 REG.add(Contract("cobra/core/reaction.py", "Reaction.boundary@getter", "C17", [("self", TRef("Reaction"))],
                  [Case("any", ensures=lambda E: E.res.t == E.eng.heap_arr(E.s0, "is_boundary")[E["self"].t])], assumed=True,
-                 key="Reaction.boundary@getter", result="bool", note="ghost flag: the reaction is a boundary reaction"))
+                 key="Reaction.boundary@getter", result="bool", note="ghost flag: the reaction is a boundary reaction (abstraction of the value PROVED on the real body in contracts/w_reaction_sides.py: exactly one stored metabolite)"))
 REG.inline.update({"Reaction.lower_bound@getter", "Reaction.upper_bound@getter"})
 
 
